@@ -26,7 +26,7 @@ MulSmall(b, k) ==
 AbsDiff(a, b) == IF Leq(b, a) THEN Sub(a, b) ELSE Sub(b, a)
 
 \* ---- fraction bits -------------------------------------------------------
-NormFrac(f) == Reverse(Norm(Reverse(f)))
+NormFrac(f) == Norm(f)          \* no trailing zero
 \* position of 0.f relative to one half
 FracClass(f) ==
   LET g == NormFrac(f) IN
